@@ -22,8 +22,14 @@ E2_TRUSTED = [
 def run_e2(hbin, model, runs, par=4, timeout_s=300, ld=None):
     driver = os.path.join(LEAN, '.lake', 'build', 'bin', 'driver')
 
+    import threading
+    stop = threading.Event()
+
     def one(argv):
         t0 = time.time()
+        if stop.is_set():
+            # a concrete violation has already been found in this batch: do not spend the budget
+            return {'argv': argv, 'raw': '', 'verdict': 'case e2 skipped', 'err': '', 'rc': -998, 'wall': 0.0}
         try:
             h = subprocess.run([hbin] + [str(a) for a in argv], capture_output=True, text=True, errors='replace', timeout=timeout_s)
             raw, err, rc = h.stdout, h.stderr[-400:], h.returncode
@@ -35,7 +41,10 @@ def run_e2(hbin, model, runs, par=4, timeout_s=300, ld=None):
             raw = (raw if raw.startswith('case ') else 'case e2 incomplete\n' + raw) + f'\nend {status}\nendcase\n'
         d = subprocess.run([driver, model], input=raw, capture_output=True, text=True)
         verdict = d.stdout.strip().split('\n')[0] if d.stdout.strip() else 'case e2 reject 0 [no-driver-output]'
-        return {'argv': argv, 'raw': raw, 'verdict': verdict, 'err': err, 'rc': rc, 'wall': time.time() - t0}
+        res = {'argv': argv, 'raw': raw, 'verdict': verdict, 'err': err, 'rc': rc, 'wall': time.time() - t0}
+        if classify_e2(res) == 'monitor':
+            stop.set()
+        return res
 
     with ThreadPoolExecutor(max_workers=par) as ex:
         return list(ex.map(one, runs))
@@ -70,7 +79,7 @@ def run(spec):
         if r.returncode != 0:
             gen_problems.append(f'{g}: {r.stderr.strip()[-300:]}')
     # 1. proof obligations
-    ok_build, build_log = lean_build()
+    ok_build, build_log = lean_build(spec['props'])
     audits = []
     problems = list(gen_problems)
     if ok_build:
@@ -111,7 +120,7 @@ def run(spec):
     else:
         runs = spec['runs'](rng, tr)
     results = run_e2(hbin, spec['model'], runs, par=spec.get('par', 4), timeout_s=spec.get('timeout_s', 600))
-    kinds = {'pass': 0, 'monitor': 0, 'tie': 0, 'stall': 0}
+    kinds = {'pass': 0, 'monitor': 0, 'tie': 0, 'stall': 0, 'skip': 0}
     for r in results:
         kinds[classify_e2(r)] += 1
     extra = 0
